@@ -81,6 +81,9 @@ def run_all(j=4, only=None):
     if only: sids=[x for x in sids if x in only]
     def one(sid):
         m=json.load(open(f'/verif/seeded/{sid}/meta.json'))
+        if m.get('neutralised_by'):
+            # a later repair of the library took the harm out of this change: nothing to detect any more
+            return sid, True, 'neutralised\n    SKIPPED: '+m['neutralised_by'][:160]
         # seeds that their own property's check cannot see are run against the check named in "run_against"
         prop=m.get('run_against', m['breaks_property'])
         p=subprocess.run([sys.executable, os.path.abspath(__file__), 'run', sid, prop], capture_output=True, text=True)
